@@ -53,3 +53,25 @@ def _(self, data: Val, values: Opt(Val)) -> Bytes:
     raises_iff(EncodeError, data not in self.data_to_value)
     ensures(list(result) == be_bytes(self.data_to_value[data], len(result))
             and tc_min_len(self.data_to_value[data], len(result)))
+
+
+@contract("Type.encode", abstract=True)
+def _(self, data: Val, encoded: ByteArray, values: Opt(Val)):
+    # append-only; errors are the library's encode error
+    raises(EncodeError)
+    assigns(encoded)
+    ensures(len(encoded) >= len(old(encoded)) and encoded[:len(old(encoded))] == old(encoded))
+
+
+@contract("Choice.encode", props=["C12", "C03", "C01"])
+def _(self, data: Tup(Str, Val), encoded: ByteArray, values: Opt(Val)):
+    refines("Type.encode")
+    # unknown alternative: encode error; an error inside the alternative is located at it (C12)
+    raises(EncodeError, ensures=[implies(data[0] in self.name_to_member, located_at(exc, self.name_to_member[data[0]]))])
+    ensures(data[0] in self.name_to_member)
+
+
+@contract("CompiledType.encode", props=["C12", "C18"])
+def _(self, data: Val) -> ByteArray:
+    # a fresh buffer per call; the error path starts with the top-level type
+    raises(EncodeError, ensures=[located_at(exc, self._type)])
